@@ -178,11 +178,12 @@ CondClauses(g, p, rs, prune, nodes) ==
 RewardOracle(g, orc, p, rs, prune) ==
     LET Gc  == CondGame(g, p, rs, prune)
         Dom == IF prune THEN ReachDom(Gc) ELSE States(g)
-    IN  IF ~orc.exact \/ ~StoppingOn(Gc, Dom)
-        THEN [ok |-> FALSE, Gc |-> Gc, Dom |-> Dom]
+        stop == StoppingOn(Gc, Dom)      \* pure graph fixed point: decidable at any size
+    IN  IF ~orc.exact \/ ~stop
+        THEN [ok |-> FALSE, stop |-> stop, Gc |-> Gc, Dom |-> Dom]
         ELSE LET rv == RewardValue(Gc, Dom)
                  hb == RewardStepBound(Gc, Dom)
-             IN  [ok |-> TRUE, Gc |-> Gc, Dom |-> Dom, rv |-> rv,
+             IN  [ok |-> TRUE, stop |-> TRUE, Gc |-> Gc, Dom |-> Dom, rv |-> rv,
                   rvf |-> TLCEval([s \in Dom |-> ToFix(rv[s])]),
                   tol |-> TLCEval([s \in Dom |-> TolNano(ToFix(hb[s]))]),
                   acyclic |-> AcyclicOn(Gc, Dom)]
